@@ -462,6 +462,9 @@ class LexInterp:
         if m == "is_none" and isinstance(recv, Opaque) and recv.what == "from_u32":
             # char::from_u32(code point of the four hex digits just consumed).is_none()
             return self.cur.surrogate_oracle()
+        if m == "is_some" and isinstance(recv, Opaque) and recv.what == "from_u32":
+            v = self.cur.surrogate_oracle()
+            return (not v) if isinstance(v, bool) else self._undec("surrogate oracle returned a non-boolean")
         raise Undecided("method `%s` on %r in the lexer" % (m, recv))
 
     def _undec(self, msg):
